@@ -1988,6 +1988,83 @@ silent_all("d16-repaired-on-the-receiving-side", [
 func (s *inProcessClientStream) RecvMsg(m interface{}) error {"""},
 ], "the D16 conversion done by the client stream when it returns a frame's error instead of by the server before sending", ["C02", "C04", "C05", "C08"])
 
+# ------------------------------------------------------------------ wave-2 rules (C15-C20)
+v("C15", "methods-scratch-slice-reused", "server.go",
+  """	for _, svc := range m {
+		methods := make([]grpc.MethodInfo, 0, len(svc.desc.Methods)+len(svc.desc.Streams))""", """	var methods []grpc.MethodInfo
+	for _, svc := range m {
+		methods = methods[:0]""", "R3", "method-list-per-service", "one scratch slice reused for every service: the Methods lists share a backing array")
+v("C15", "methods-accumulate-across-services", "server.go",
+  """	for _, svc := range m {
+		methods := make([]grpc.MethodInfo, 0, len(svc.desc.Methods)+len(svc.desc.Streams))""", """	var methods []grpc.MethodInfo
+	for _, svc := range m {""", "R3", "method-list-per-service", "the list is declared outside the loop and never reset: later services also report earlier ones' methods")
+v("C15", "methods-nil-start", "server.go",
+  "		methods := make([]grpc.MethodInfo, 0, len(svc.desc.Methods)+len(svc.desc.Streams))", "		var methods []grpc.MethodInfo", silent=True, why="per-service list started from nil instead of a pre-sized make")
+
+v("C16", "http-fullmethod-is-mux-pattern", "", "", "", "R3", "full-method", "the HTTP stream handler takes FullMethod from the mux pattern (contains the base path)",
+  edits=[{"file": "httpgrpc/server.go", "old": "		h := handleStream(svr, desc.ServiceName, &sd, s.streamInt, &s.opts)\n		s.mux.HandleFunc(path.Join(s.basePath, fmt.Sprintf(\"%s/%s\", desc.ServiceName, sd.StreamName)), h)", "new": "		name := path.Join(s.basePath, desc.ServiceName, sd.StreamName)\n		s.mux.HandleFunc(name, handleStream(svr, name, &sd, s.streamInt, &s.opts))"},
+         {"file": "httpgrpc/server.go", "old": "			h := handleStream(svr, desc.ServiceName, &sd, streamInt, &hOpts)\n			mux(path.Join(basePath, fmt.Sprintf(\"%s/%s\", desc.ServiceName, sd.StreamName)), h)", "new": "			name := path.Join(basePath, desc.ServiceName, sd.StreamName)\n			mux(name, handleStream(svr, name, &sd, streamInt, &hOpts))"},
+         {"file": "httpgrpc/server.go", "old": "	return handleStream(svr, serviceName, desc, streamInt, &hOpts)", "new": "	return handleStream(svr, fmt.Sprintf(\"/%s/%s\", serviceName, desc.StreamName), desc, streamInt, &hOpts)"},
+         {"file": "httpgrpc/server.go", "old": "func handleStream(svr interface{}, serviceName string, desc *grpc.StreamDesc,", "new": "func handleStream(svr interface{}, fullMethod string, desc *grpc.StreamDesc,"},
+         {"file": "httpgrpc/server.go", "old": "		FullMethod:     fmt.Sprintf(\"/%s/%s\", serviceName, desc.StreamName),", "new": "		FullMethod:     fullMethod,"}])
+
+v("C18", "copymessage-zero-source-shortcut", "internal/misc.go",
+  "	pmOut.Reset()\n", "	pmOut.Reset()\n	if reflect.ValueOf(in).Elem().IsZero() {\n		return nil\n	}\n", "R5", "CopyMessage", "zero-valued source: the type-checking merge is skipped, a destination of another type is accepted")
+v("C18", "clonefunc-fieldwise-copy", "inprocgrpc/cloner.go",
+  "		dest.Set(src)\n		return nil\n", "		for i := 0; i < dest.NumField(); i++ {\n			if dest.Field(i).CanSet() {\n				dest.Field(i).Set(src.Field(i))\n			}\n		}\n		return nil\n", "R5", "CloneFunc$1", "exported fields only: unknown fields neither copied nor cleared")
+
+v("C19", "override-registered-per-file", "cmd/protoc-gen-grpchan/protoc-gen-grpchan.go",
+  """	if args.importPath != "" {
+		// if we're overriding import path, go ahead and query
+		// package for each file, which will cache the override name
+		// so all subsequent queries are consistent
+		for _, fd := range req.Files {
+			// Only use the override for files that don't otherwise have an
+			// entry in the specified import map
+			if _, ok := args.importMap[fd.GetName()]; !ok {
+				names.GoPackageForFileWithOverride(fd, args.importPath)
+			}
+		}
+	}
+	for _, fd := range req.Files {
+""", """	for _, fd := range req.Files {
+		if args.importPath != "" {
+			if _, ok := args.importMap[fd.GetName()]; !ok {
+				names.GoPackageForFileWithOverride(fd, args.importPath)
+			}
+		}
+""", "R5", "override-before-generation", "override registered just before each file is generated instead of for all files first")
+v("C19", "override-loop-index-form", "cmd/protoc-gen-grpchan/protoc-gen-grpchan.go",
+  """		for _, fd := range req.Files {
+			// Only use the override for files that don't otherwise have an
+			// entry in the specified import map
+			if _, ok := args.importMap[fd.GetName()]; !ok {""", """		for i := range req.Files {
+			fd := req.Files[i]
+			if _, ok := args.importMap[fd.GetName()]; !ok {""", silent=True, why="the override loop written with an index")
+
+v("C20", "ondone-deferred", "inprocgrpc/in_process.go",
+  "func (s *inProcessServerStream) finish(err error) {\n	s.onDone()\n", "func (s *inProcessServerStream) finish(err error) {\n	defer s.onDone()\n", "R5", "done-signal-before-final-writes", "completion signalled only after the final frames were written: a client parked in SendMsg is not released when the handler returns")
+v("C05", "ondone-deferred", "inprocgrpc/in_process.go",
+  "func (s *inProcessServerStream) finish(err error) {\n	s.onDone()\n", "func (s *inProcessServerStream) finish(err error) {\n	defer s.onDone()\n", "R7", "done-signal-before-final-writes", "deferred completion signal: both sides can stall on full buffers")
+v("C20", "client-read-ahead", "inprocgrpc/in_process.go",
+  """			err := s.cloner.Copy(m, r.data)
+			if err == nil && lastMessage {
+				err = s.ensureNoMoreLocked(m)
+			}
+			return err""", """			err := s.cloner.Copy(m, r.data)
+			if err == nil && lastMessage {
+				err = s.ensureNoMoreLocked(m)
+			} else if err == nil {
+				select {
+				case nx, ok := <-s.responses:
+					if ok {
+						s.last = &nx
+					}
+				default:
+				}
+			}
+			return err""", "R6", "", "the client polls for the next frame after each receive and parks it: the server gets one more message ahead")
+
 
 def main():
     if os.path.isdir(OUT):
